@@ -63,7 +63,8 @@ def shard(desc):
         if hasattr(mod, "prepare"):
             mod.prepare(date, ctx, sh)
 
-        early = date < dates.SUPPORTED_START
+        # (modules with a date range of their own, like C19 from 2003, are not "early strata" modules)
+        early = bool(getattr(mod, "EARLY", 0)) and date < dates.SUPPORTED_START
         if early:
             from . import env
 
